@@ -255,6 +255,10 @@ def h_malformed(ctx):
             kinds += ["one-octet-short", "one-octet-long", "empty"]
         elif kty == "RSA" and m in ("n", "e"):
             kinds += ["zero", "empty"]
+        elif kty == "RSA":
+            kinds += ["inconsistent+2", "inconsistent-bitflip"]
+        if kty in ("EC", "OKP") and m == "d":
+            kinds += ["inconsistent+2"]
         elif kty == "oct":
             kinds += []
         how = ctx.choose("corruption", kinds)
@@ -288,6 +292,11 @@ def h_malformed(ctx):
             d[m] = b64.enc(b64.dec(v) + b"\x00")
         elif how == "empty":
             d[m] = ""
+        elif how in ("inconsistent+2", "inconsistent-bitflip"):
+            raw = b64.dec(v)
+            iv = int.from_bytes(raw, "big")
+            iv = iv + 2 if how == "inconsistent+2" else iv ^ (1 << (len(raw) * 4))
+            d[m] = b64.enc(iv.to_bytes(len(raw), "big"))
         if how == "other-curve" and kty == "OKP" and len(b64.dec(d["x"])) == rjwk.OKP_LEN.get(d[m], -1) and "d" not in d:
             return Outcome("still-valid", [], nontrivial=None)   # 32 octets are a valid public key on several OKP curves
         if kty == "RSA" and m in ("n", "e") and how in ("zero",) and "d" not in d:
@@ -341,6 +350,21 @@ def h_malformed(ctx):
         return KeySet.import_key_set({"keys": [copy.deepcopy(d)]}).keys[0]
     r = call(run)
     vs = []
+    if malformed is not None and "inconsistent" in malformed:
+        # a private member that decodes but does not belong to the key: either refused at import, or - if accepted - the key
+        # must still behave like a key (export, re-import, interoperate), which is what the round-trip clause promises
+        if r.ok:
+            k = r.value
+            e = call(lambda: type(k).import_key(k.as_pem(private=True)))
+            if not e.ok:
+                vs.append(viol(f"an accepted JWK with an inconsistent private member does not survive a PEM export/import round trip ({kty})",
+                               f"{name} via {route}: {malformed}: {e.exc!r}"))
+            else:
+                n2 = numbers(e.value)
+                core = {m_: v_ for m_, v_ in d.items() if m_ in ("n", "e", "d", "p", "q", "dp", "dq", "qi", "x", "y", "crv")}
+                if any(n2.get(m_) != v_ for m_, v_ in core.items() if m_ in n2):
+                    vs.append(viol(f"an accepted JWK with an inconsistent private member changes its material on a PEM round trip ({kty})", f"{name}: {malformed}"))
+        return Outcome(f"inconsistent:{'accepted' if r.ok else 'refused:' + r.etype}", vs, nontrivial=(name, route, edit, malformed))
     if malformed is None:
         if not r.ok:
             vs.append(viol(f"a valid JWK is refused at import ({name}, {edit})", f"{route}: {r.exc!r}"))
